@@ -1,9 +1,10 @@
 import Vivid.Engine.Util
 import Vivid.Model.VersionVector
+import Vivid.Model.VVWire
 
 /-! Driver engine `vv`: pure ops on version vectors. -/
 namespace Vivid.Engine.VVEngine
-open Vivid.VV Vivid.Engine
+open Vivid.VV Vivid.Engine Vivid.VVWire Vivid.Codec
 
 def parseEntry (t : String) : Option (Node × Nat) :=
   match t.splitOn ":" with
@@ -24,6 +25,18 @@ def showVV (v : VV) : String :=
 
 def showOrder : Order → String
   | .equal => "equal" | .before => "before" | .after => "after" | .concurrent => "concurrent"
+
+/-- Bytewise lexicographic order (Go's string order). -/
+def bytesLe : List Nat → List Nat → Bool
+  | [], _ => true
+  | _ :: _, [] => false
+  | a :: s, b :: t => a < b || (a == b && bytesLe s t)
+
+/-- What `ReadVersionVector` leaves in its map: the last entry of a name wins; rendered sorted, names in hex. -/
+def showEntries (es : Entries) : String :=
+  let m := es.foldl (fun acc e => acc.filter (fun x => x.1 ≠ e.1) ++ [e]) ([] : Entries)
+  if m.isEmpty then "-"
+  else joinWith "," ((sortBy (fun a b => bytesLe a.1 b.1) m).map (fun e => s!"{toHex e.1}:{e.2}"))
 
 def step (_ : Unit) (line : String) : Unit × String :=
   let out :=
@@ -47,6 +60,25 @@ def step (_ : Unit) (line : String) : Unit × String :=
         let gs := joinWith "," ((List.range k).map (fun i => toString (get r s!"e{i}")))
         s!"size={r.length} get={gs} c1={showOrder (compare r e)} c2={showOrder (compare e r)}"
       | _, _ => "bad-op"
+    | ["ser", a] =>
+      -- WriteVersionVector, then ReadVersionVector of the bytes written ("err": either side refuses)
+      match parseVV a with
+      | some a =>
+        let es : Entries := (sortBy (fun x y => x.1 ≤ y.1) a).map (fun e => (nameBytes e.1, e.2))
+        match encodeVV es with
+        | Option.none => "err"
+        | Option.some bs =>
+          match decodeVV bs with
+          | .ok (r, rest) => s!"{toHex bs} {showEntries r} left={rest.length}"
+          | .err => "err"
+      | none => "bad-op"
+    | ["rd", h] =>
+      match fromHex h with
+      | some bs =>
+        match decodeVV bs with
+        | .ok (r, rest) => s!"{showEntries r} left={rest.length}"
+        | .err => "err"
+      | none => "bad-op"
     | ["inc", a, n] =>
       match parseVV a with
       | some a =>
